@@ -180,8 +180,8 @@ register(
     level="proof",
     streams=["fifo", "fp", "arrival"],
     falsifier=fals_analyses.falsify_C18,
-    partial=["FIFO: proved (in EVERY legal FIFO schedule of the critical-instant job set some job has response time exactly the bound; a legal schedule exists; sporadic/periodic tasks are realisable). Fully preemptive and fully non-preemptive FP: stated (FpPreemptiveTight) and explored by simulation of the critical-instant schedule, not proved; auto-extrapolating curves: realisability not proved"],
-    explanation="tightness of the FIFO bound as a theorem over all legal schedules plus existence of a schedule (greedy scheduler construction); FP tightness by witness search.",
+    partial=["FIFO and fully preemptive FP: proved (in EVERY legal schedule of a job set that realises the curves from a common instant, jobs at their WCET, some job (FP: of the analysed task) has response time exactly the bound; legal schedules exist by a greedy construction; sporadic/periodic tasks are realisable from the critical instant). Fully non-preemptive FP: explored by simulation of the critical-instant schedule with a lower-priority job started one tick earlier, not proved; realisability of auto-extrapolating super-additive curves by their densest sequence: explored (the falsifier schedules it), not proved"],
+    explanation="tightness of the FIFO and of the fully preemptive FP bound as theorems over all legal schedules (lower bound by counting the work that must precede the completion of the last job released at the maximising offset; upper bound = C03/C01 soundness) plus existence of schedules (greedy scheduler constructions); NP-FP tightness by witness search.",
 )
 
 
